@@ -399,4 +399,4 @@ HYPOTHESES = ['commutative-group laws of the abstract group (A, +, -, 0) (assoc,
               'hashmap: r * den(P) = 0 for every base (prime-order subgroup) and the base equality test is sound']
 
 # pinned theorems that discharge this package's group-level premises for the concrete C03 curve dictionaries
-EXTRA_PROP_FILES = ['Link']
+EXTRA_PROP_FILES = ['Link', 'Assoc']
